@@ -85,6 +85,26 @@ func (e *FEnc) evalBool(env *Env, x *Ex) (string, error) {
 }
 
 func (e *FEnc) sortOfName(env *Env, name string) (string, types.Type, error) {
+	if strings.HasPrefix(name, "[]") {
+		_, ty, err := e.sortOfName(env, name[2:])
+		if err != nil {
+			return "", nil, err
+		}
+		if ty == nil {
+			return "Slice", nil, nil
+		}
+		return "Slice", types.NewSlice(ty), nil
+	}
+	if strings.HasPrefix(name, "*") {
+		_, ty, err := e.sortOfName(env, name[1:])
+		if err != nil {
+			return "", nil, err
+		}
+		if ty == nil {
+			return "Ref", nil, nil
+		}
+		return "Ref", types.NewPointer(ty), nil
+	}
 	switch name {
 	case "int", "int64", "int32", "uint", "uint64", "byte", "uint8", "uint32", "int8", "int16", "uint16":
 		var t types.Type
@@ -413,6 +433,20 @@ func (e *FEnc) eval(env *Env, x *Ex) (*Val, error) {
 		return nil, fmt.Errorf("slicing of sort %s", base.Sort)
 	case "call":
 		return e.evalCall(env, x)
+	case "mcall":
+		recv, err := e.eval(env, x.Args[0])
+		if err != nil {
+			return nil, err
+		}
+		var args []*Val
+		for _, a := range x.Args[1:] {
+			v, err := e.eval(env, a)
+			if err != nil {
+				return nil, err
+			}
+			args = append(args, v)
+		}
+		return e.evalMethod(env, recv, x.Name, args)
 	}
 	// binary
 	if len(x.Args) != 2 {
@@ -643,6 +677,24 @@ func (e *FEnc) evalCall(env *Env, x *Ex) (*Val, error) {
 		}
 		box, _ := e.d.boxFns(args[0].Ty)
 		return &Val{Sort: "Iface", T: fmt.Sprintf("(%s %s)", box, e.term(args[0]))}, nil
+	case "as": // as(x, T): the value of interface x asserted to concrete type T
+		if len(x.Args) != 2 {
+			return nil, fmt.Errorf("as(x, T)")
+		}
+		v, err := e.eval(env, x.Args[0])
+		if err != nil {
+			return nil, err
+		}
+		_, ty, err := e.sortOfName(env, exName(x.Args[1]))
+		if err != nil {
+			return nil, err
+		}
+		if ty == nil || v.Sort != "Iface" {
+			return nil, fmt.Errorf("as(x, T): x must be an interface value and T a Go type")
+		}
+		_, unbox := e.d.boxFns(ty)
+		t := fmt.Sprintf("(%s %s)", unbox, e.term(v))
+		return &Val{Ty: ty, Sort: e.sortOf(ty), T: t}, nil
 	case "typeIs": // typeIs(x, T)
 		if len(x.Args) != 2 {
 			return nil, fmt.Errorf("typeIs(x, T)")
@@ -660,6 +712,31 @@ func (e *FEnc) evalCall(env *Env, x *Ex) (*Val, error) {
 	if err := evalArgs(); err != nil {
 		return nil, err
 	}
+	// method call on a value: recv.Method(args) where the method carries a `pure` contract
+	if i := strings.LastIndex(x.Name, "."); i > 0 {
+		rx, perr := parseExpr(x.Name[:i])
+		if perr == nil {
+			root := strings.SplitN(x.Name, ".", 2)[0]
+			_, isBound := env.bound[root]
+			_, isVar := env.vars[root]
+			known := isBound || isVar
+			if !known && env.blk != nil {
+				_, known = e.lookupVar(env.st, root, env.blk, env.idx)
+			}
+			if !known && env.pkg != nil {
+				if _, isVar := env.pkg.Scope().Lookup(root).(*types.Var); isVar {
+					known = true
+				}
+			}
+			if known {
+				recv, err := e.eval(env, rx)
+				if err != nil {
+					return nil, err
+				}
+				return e.evalMethod(env, recv, x.Name[i+1:], args)
+			}
+		}
+	}
 	// ghost function
 	if g, ok := e.eng.cs.Ghosts[x.Name]; ok {
 		if len(args) != len(g.Params) {
@@ -667,8 +744,14 @@ func (e *FEnc) evalCall(env *Env, x *Ex) (*Val, error) {
 		}
 		e.usedGhost[x.Name] = true
 		var ts []string
+		genv := env
+		if gp := e.eng.pkgByPath(g.PkgPath); gp != nil {
+			ge := *env
+			ge.pkg = gp
+			genv = &ge
+		}
 		for i, a := range args {
-			ps, _, err := e.sortOfName(env, g.Params[i].Type)
+			ps, _, err := e.sortOfName(genv, g.Params[i].Type)
 			if err != nil {
 				return nil, err
 			}
@@ -681,7 +764,7 @@ func (e *FEnc) evalCall(env *Env, x *Ex) (*Val, error) {
 			}
 			ts = append(ts, e.term(a))
 		}
-		rs, rty, err := e.sortOfName(env, g.Ret)
+		rs, rty, err := e.sortOfName(genv, g.Ret)
 		if err != nil {
 			return nil, err
 		}
@@ -740,4 +823,74 @@ func (e *FEnc) pureSym(key string, args []*Val, resTy types.Type, i int) (string
 	rs := e.sortOf(resTy)
 	e.d.add("fn:"+sym, fmt.Sprintf("(declare-fun %s (%s) %s)", sym, strings.Join(ps, " "), rs))
 	return sym, rs
+}
+
+// evalMethod applies a pure method (static or interface) to a receiver value inside a contract expression.
+func (e *FEnc) evalMethod(env *Env, recv *Val, name string, args []*Val) (*Val, error) {
+	if recv.Ty == nil {
+		return nil, fmt.Errorf("method %s on value of unknown type", name)
+	}
+	obj, _, _ := types.LookupFieldOrMethod(recv.Ty, true, env.pkg, name)
+	m, ok := obj.(*types.Func)
+	if !ok {
+		// exported methods of other packages
+		obj, _, _ = types.LookupFieldOrMethod(recv.Ty, true, nil, name)
+		m, ok = obj.(*types.Func)
+		if !ok {
+			return nil, fmt.Errorf("no method %s on %v", name, recv.Ty)
+		}
+	}
+	sig := m.Type().(*types.Signature)
+	var key string
+	var fc *FuncContract
+	if _, isIface := recv.Ty.Underlying().(*types.Interface); isIface {
+		if n := namedOf(recv.Ty); n != nil && n.Obj().Pkg() != nil {
+			key = n.Obj().Pkg().Path() + "." + n.Obj().Name() + "." + name
+			fc = e.eng.contractByKey("iface:" + key)
+		}
+	} else {
+		fn := e.eng.prog.FuncValue(m)
+		if fn == nil {
+			return nil, fmt.Errorf("method %s has no SSA function", name)
+		}
+		key = fn.String()
+		fc = e.eng.contractOf(fn)
+	}
+	if fc == nil || !fc.Pure {
+		return nil, fmt.Errorf("method %s is not declared pure", name)
+	}
+	all := append([]*Val{recv}, args...)
+	// omitted variadic argument = nil slice
+	if sig.Variadic() && len(args) == sig.Params().Len()-1 {
+		vt := sig.Params().At(sig.Params().Len() - 1).Type()
+		all = append(all, e.zero(vt))
+	}
+	if len(all) != sig.Params().Len()+1 {
+		return nil, fmt.Errorf("method %s: wrong number of arguments", name)
+	}
+	for i := 1; i < len(all); i++ {
+		pt := sig.Params().At(i - 1).Type()
+		if e.sortOf(pt) == "Iface" && all[i].Sort != "Iface" && all[i].Ty != nil {
+			box, _ := e.d.boxFns(all[i].Ty)
+			all[i] = &Val{Ty: pt, Sort: "Iface", T: fmt.Sprintf("(%s %s)", box, e.term(all[i]))}
+		}
+	}
+	res := sig.Results()
+	mk := func(i int) *Val {
+		ty := res.At(i).Type()
+		sym, rs := e.pureSym(key, all, ty, i)
+		var ts []string
+		for _, a := range all {
+			ts = append(ts, e.term(a))
+		}
+		return &Val{Ty: ty, Sort: rs, T: "(" + sym + " " + strings.Join(ts, " ") + ")"}
+	}
+	if res.Len() == 1 {
+		return mk(0), nil
+	}
+	tup := &Val{Ty: res, Sort: "Tuple"}
+	for i := 0; i < res.Len(); i++ {
+		tup.Tup = append(tup.Tup, mk(i))
+	}
+	return tup, nil
 }
